@@ -44,8 +44,23 @@ def step' (w : W) (line : String) : W × String :=
     | some f => ({ w with fail := none }, "CONFORM-FAIL " ++ f)
     | none =>
       if w.slots.any (fun (_, s) => s.bad) then (w, "MODEL-BAD " ++ obs w) else (w, pre ++ " " ++ obs w)
+  -- dial steps also report how many descriptors the REAL epoll set holds under the slot's pointer
+  let fin' (w : W) (k : Nat) : W × String := fin w s!"ok reg={if (getSlot w k).registered then 1 else 0}"
   match toks with
   | ["seq", _] => ({}, "seq")
+  | ["dev", _, _] => fin w "ok"
+  | ["dial", id, sl] =>
+    (match kv sl "slot" with
+     | none => (w, "bad-op")
+     | some k =>
+       -- newPollDesc + WaitWrite's Control(PollWritable)
+       let w := apply w k [.allocDial, .register]
+       fin' { w with conns := (1000 + toNat! id, k, (getSlot w k).gen) :: w.conns } k)
+  | ["dtimeout", _, sl, "pre=detached"] =>
+    -- the poller's appendHup had detached the operator already (hang-up recorded, not delivered yet): pd.detach() is a no-op
+    (match kv sl "slot" with
+     | some k => fin' w k
+     | none => (w, "bad-op"))
   | ["hup", _] => fin w "ok"
   | [o, id, sl] =>
     if o != "open" && o != "openh" then
@@ -55,10 +70,23 @@ def step' (w : W) (line : String) : W × String :=
          -- the descriptor closed last; the probe descriptor opened in between can therefore not have got the number
          let s := getSlot w k
          let owner := (w.conns.find? (fun (_, sl, g) => sl == k && some g == s.cbGen)).map (·.1)
-         let w := apply w k [.doEv, .detach, .doneEv, .unused, .reset, .freeable, .closeFd s.gen]
+         let w := apply w k [.doEv, .detach, .doneEv, .stopFlush, .unused, .reset, .freeable, .closeFd s.gen]
          let ran := match owner with | some id => toString id | none => "?"
          fin w s!"ok ran={ran} probe=intact"
-       | "close", some k => fin (apply w k [.detach, .unused, .reset, .freeable, .closeFd (getSlot w k).gen]) "ok"
+       | "close", some k => fin (apply w k [.detach, .stopFlush, .unused, .reset, .freeable, .closeFd (getSlot w k).gen]) "ok"
+       | "wclose", some k =>
+         -- a Write of the owner is IN FLIGHT (parked in front of its sendmsg, holding lock(flushing)) while the owner's Close() runs on
+         -- another goroutine: detach; the finalizer spins in stop(flushing); the writer sends on its own descriptor and leaves; only then
+         -- Free and the close of the descriptor.  The probe descriptors opened in between cannot have got the number
+         fin (apply w k [.wLock, .detach, .wUse, .wUnlock, .stopFlush, .unused, .reset, .freeable, .closeFd (getSlot w k).gen]) "ok probe=intact"
+       | "dtimeout", some k =>
+         -- pollDesc.WaitWrite returned through ctx.Done(): its own pd.detach() (`pre=live`)
+         fin' (apply w k [.detach]) k
+       | "dfree", some k => fin' (apply w k [.unused, .reset, .freeable]) k
+       | "dclosefd", some k =>
+         (match w.conns.find? (·.1 == 1000 + toNat! id) with
+          | some (_, _, g) => fin' (apply w k [.closeFd g]) k
+          | none => (w, "bad-op"))
        | "dispatch", _ =>
          -- `dispatch k hup=full|detached`: the event carried a hang-up; appendHup detaches inside the dispatch, then either the
          -- hang-up goroutine tears the connection down (handler set) or the operator waits for the user's Close
@@ -67,10 +95,16 @@ def step' (w : W) (line : String) : W × String :=
          let willRun := s.st == 1 && s.pending.isSome
          let owner := (w.conns.find? (fun (_, sl, g) => sl == k && some g == s.cbGen)).map (·.1)
          if !willRun then ({ w with fail := none }, s!"CONFORM-FAIL hang-up processed for slot {k} although the model skips the event") else
-         let acts := if sl == "hup=full" then [Act.doEv, .queueHup, .detach, .doneEv, .runHup s.gen false, .unused, .reset, .freeable, .closeFd s.gen]
+         let acts := if sl == "dial=out" then [Act.doEv, .detach, .doneEv]    -- pollDesc.onwrite: detach inside the dispatch
+                     -- `…d`: WaitWrite's ctx branch had detached the operator before this (earlier fetched) event was dispatched:
+                     -- the callbacks run, their detach is a no-op
+                     else if sl == "dial=outd" then [Act.doEv, .doneEv]
+                     else if sl == "dial=hupd" then [Act.doEv, .queueHup, .doneEv, .runHup s.gen false]
+                     else if sl == "hup=full" then [Act.doEv, .queueHup, .detach, .doneEv, .runHup s.gen false, .stopFlush, .unused, .reset, .freeable, .closeFd s.gen]
                      else [Act.doEv, .queueHup, .detach, .doneEv, .runHup s.gen false]
          let w := apply w k acts
-         let ran := match owner with | some id => toString id | none => "?"
+         -- (a dial's operator has no Inputs: `ran` names connections only)
+         let ran := if sl.startsWith "dial=" then "none" else match owner with | some id => toString id | none => "?"
          fin w s!"ok ran={ran}"
        | "drel", _ =>
          -- `drel k skip=0|1`: dispatch with the owner's Release() loop running concurrently (joined before the observation).
@@ -110,14 +144,19 @@ def step' (w : W) (line : String) : W × String :=
       let s := getSlot w k
       let willRun := s.st == 1 && s.pending.isSome
       let owner := (w.conns.find? (fun (_, sl, g) => sl == k && some g == s.cbGen)).map (·.1)
-      let ranNow := if willRun then ran ++ [match owner with | some id => toString id | none => "?"] else ran
+      let ranNow := if willRun && !tag.startsWith "d" then ran ++ [match owner with | some id => toString id | none => "?"] else ran
       if tag == "" then (apply w k (if willRun then [.doEv, .doneEv] else [.doEv]), ranNow)
       else if !willRun then ({ w with fail := some s!"hang-up processed for slot {k} although the model skips the event" }, ran)
       else
         let acts := match tag with
-          | "hupf" => [Act.doEv, .queueHup, .detach, .doneEv, .runHup s.gen false, .unused, .reset, .freeable, .closeFd s.gen]
+          | "hupf" => [Act.doEv, .queueHup, .detach, .doneEv, .runHup s.gen false, .stopFlush, .unused, .reset, .freeable, .closeFd s.gen]
           | "hupd" => [Act.doEv, .queueHup, .detach, .doneEv, .runHup s.gen false]
           | "hupg" => [Act.doEv, .queueHup, .detach, .doneEv, .runHup s.gen false]
+          | "dhup" => [Act.doEv, .queueHup, .detach, .doneEv, .runHup s.gen false]
+          | "dout" => [Act.doEv, .detach, .doneEv]
+          | "doutd" => [Act.doEv, .doneEv]
+          | "dhupd" => [Act.doEv, .queueHup, .doneEv, .runHup s.gen false]
+          | "dhupqd" => [Act.doEv, .queueHup, .doneEv]
           | _ => [Act.doEv, .queueHup, .detach, .doneEv]
         (apply w k acts, ranNow)) (w, [])
     fin w s!"ok ran={if ran.isEmpty then "none" else "+".intercalate ran}"
@@ -128,7 +167,7 @@ def step' (w : W) (line : String) : W × String :=
     let ks := match kvs fl "full" with
       | some l => if l == "-" then [] else (l.splitOn ",").map toNat!
       | none => []
-    fin (ks.foldl (fun w k => apply w k [.unused, .reset, .freeable, .closeFd (getSlot w k).gen]) w) "ok"
+    fin (ks.foldl (fun w k => apply w k [.stopFlush, .unused, .reset, .freeable, .closeFd (getSlot w k).gen]) w) "ok"
   | ["send", _] => fin w "ok"
   -- Release() on a live connection between poller steps: do(); reset tail; done() – the slot is as before
   | ["rel", id] =>
@@ -159,7 +198,7 @@ def step' (w : W) (line : String) : W × String :=
     match kv sl "slot" with
     | none => (w, "bad-op")
     | some k =>
-      if pre == "pre=detached" then fin (apply w k [.unused, .reset, .freeable, .closeFd (getSlot w k).gen]) "ok" else (w, "bad-op")
+      if pre == "pre=detached" then fin (apply w k [.stopFlush, .unused, .reset, .freeable, .closeFd (getSlot w k).gen]) "ok" else (w, "bad-op")
   | ["stale", id, what, sl] =>
     match kv sl "slot", w.conns.find? (·.1 == toNat! id) with
     | some k, some (_, _, g) =>
